@@ -79,6 +79,13 @@ def mk_resolved(typ, section):
             if gs:
                 glob[syntax] = {section: {key: vgs}}
             user = {'type': typ, 'syntax': syntax}
+            default_syntax = {'markup': 'html', 'stylesheet': 'css'}[typ]
+            if not syn_in_user:
+                if syntax != default_syntax:
+                    return 'skip'
+                del user['syntax']            # the default syntax of the type must be used
+                if typ == 'markup':
+                    del user['type']
             if u:
                 user[section] = {key: vu}
             before = snapshot()
@@ -149,7 +156,9 @@ def mk_observed(what):
                 glob['markup'] = {section: {key: dom[gt]}}
             if gs >= 0:
                 glob[syntax] = {section: {key: dom[gs]}}
-            user = {'syntax': syntax, 'options': {'output.format': False}}
+            user = {'syntax': syntax}
+            if syntax == 'html':
+                user = {}                      # an empty call config must still see the global config
             if u >= 0:
                 user.setdefault(section, {})[key] = dom[u]
             layers = [u, gs, gt]
